@@ -147,7 +147,8 @@ class BooleanOption(ConfigOption[bool]):
 class IntegerOption(ConfigOption[int]):
     @classmethod
     def parse(cls: "type[IntegerOption]", data: object, source_path: Path) -> int:
-        if isinstance(data, int):
+        # bool is a subclass of int, but "true" is not a number
+        if isinstance(data, int) and not isinstance(data, bool):
             return data
         raise InvalidConfigOption.from_parser(cls, "int", data)
 
